@@ -124,7 +124,7 @@ def progOfOp (s : CSt) (o : COp) : List Instr :=
   | "setid" =>
     let cid := match o.res with | _ :: c :: _ => strBytes c | _ => []
     setIdentityProg o.log cid
-  | "iter" => iteratorProg o.log
+  | "iter" | "iterb" => iteratorProg o.log
   | "heads" | "rawheads" | "json" => headsProg o.log
   | "mh" => toMultihashProg o.log
   | _ => readerProg o.log
@@ -215,6 +215,21 @@ def finishCase (s : CSt) : CSt :=
         let s := s.cmpList s!"read.iter tid={o.tid}" (hashes seen.values).reverse xs
         let V := (s.ents xs).reverse
         s.spec "C13" "readIterOk" (nodupH (hashes V) && (bounded || (causalOk V && closedOk V))) s!"tid {o.tid}"
+      else if kind == "iterb" then
+        -- iteration below a bound (an entry appended in the prelude; arg 1 = exclusive): no error, and
+        -- exactly the causal past of the bound inside the log
+        let V := (s.ents xs).reverse
+        let s := s.spec "C13" "boundedIterReturns" (note != "err") s!"tid {o.tid}: the bounded iteration reported an error"
+        let s := s.spec "C13" "readIterOk" (nodupH (hashes V) && (bounded || (causalOk V && closedOk V))) s!"tid {o.tid}"
+        match ys with
+        | [] => s
+        | b :: _ =>
+          if bounded || note == "err" then s else
+          let fin := match s.finalO.find? (fun p => p.1 == o.log) with | some p => s.ents p.2.1 | none => []
+          let be := s.ent b
+          let roots := if o.arg == 1 then be.next else [be.hash]
+          let exp := hashes (pastOf fin roots)
+          s.spec "C13" "boundedIterRange" (sameSetH exp (hashes V)) s!"tid {o.tid}: expected {s.showH exp} got {a}"
       else if kind == "heads" || kind == "rawheads" || kind == "json" then
         let s := s.cmpList s!"read.{kind} tid={o.tid}" (hashes r.hs) xs (asSet := true)
         s.spec "C13" "readHeadsOk" (nodupH (s.hs xs)) s!"tid {o.tid}"
